@@ -133,13 +133,17 @@ def registry(ctx):
                 ctx.check(not s, R, c, node or c.node,
                           "abstract class %s owns no aliases" % c.short,
                           "abstract class %s owns aliases %r; from_alias would try to instantiate it" % (c.short, sorted(s or [])))
-        # every alias resolves, from its family root, to its class
-        for a, c in sorted(seen.items()):
-            win = simulate_search(prog, fam, a, effective)
-            ctx.check(win is c or (win is not None and a in (own_aliases(win)[0] or set()) and win.node.lineno >= c.node.lineno and win.module is c.module),
-                      R, c, c.attrs.get("aliases"),
-                      "alias %r resolves from %s to %s" % (a, fam.short, c.short),
-                      "alias %r resolves from %s to %s instead of %s" % (a, fam.short, win.short if win else None, c.short))
+        # every alias of every concrete class resolves, from its family root, to that class
+        for c in members:
+            if not prog.is_concrete(c):
+                continue
+            s, node = own_aliases(c)
+            for a in sorted(s or ()):
+                win = simulate_search(prog, fam, a, effective)
+                ctx.check(win is c, R, c, node,
+                          "alias %r resolves from %s to %s" % (a, fam.short, c.short),
+                          "alias %r of %s resolves from %s to %s: the class can no longer be built from its own alias"
+                          % (a, c.short, fam.short, win.short if win else None))
             # ... and also from the class itself and from AliasedFactory's own family root
         # aliases must be hashable strings only
     ctx.floor(R, n_classes, 20)
